@@ -48,14 +48,11 @@ def run(chk):
     chk.trusted = ["Lean 4.33 kernel", "axioms ⊆ {propext, Classical.choice, Quot.sound}",
                    "GE/Model/BindingMap.lean tied to BindingMapCollector by differential runs through a cfg hook",
                    "independent use-site analysis in checklib/tmplgen.py (oracle)", "real ProcGenWrapper.bindingMapUpdate under node 22 with a stub backend"]
-    chk.assumptions = ["PARTIAL: the Lean theorems are about the collector state machine (advertised_iff …); that the traversal reports every structural / "
-                       "dynamic-subtree use as disable_field, and that the emitted updaters re-evaluate every occurrence, is established by the oracle only"]
-    failed, log = chk.prove("GE.Thm.C07", THEOREMS)
-    for t in failed:
-        chk.violation("proof", f"obligation {t} no longer checks", theorem=t, log=log[-3000:])
-    ok, log = core.lake_build(["gedriver"])
-    if not ok:
-        raise core.BrokenTie("driver-build", log)
+    chk.assumptions = ["PARTIAL: advertised_tag_iff (GE/Thm/C05Tag.lean): over the model of the whole parse-side traversal (tied to the implementation by corr:tag_scopes, which "
+                       "this check re-runs, and by the advertised sets below), a data field is advertised iff the template has no include, the field occurs in no "
+                       "structural value and in no value inside a wx:if / wx:for / template-is / slot element, and it occurs in some other value; advertised_iff etc. are "
+                       "about the collector state machine. That the emitted updaters re-evaluate every occurrence is established by the oracle only"]
+    chk.model_tie([("GE.Thm.C07", THEOREMS), ("GE.Thm.C05Tag", ["GE.TagScope.advertised_tag_iff", "GE.TagScope.opsOk_node", "GE.TagScope.run_main_eq_spec"])])
     rng = chk.rng.fork("c07")
     # ---- collector: model vs implementation -----------------------------------------------------
     reqs = []
@@ -82,6 +79,8 @@ def run(chk):
         ts.append(t)
         srcs.append(tg.Printer().template(t))
         ndirected += 1
+    from .c05 import tag_scope_stream
+    model_adv = tag_scope_stream(chk, srcs) or {}
     groups = render.compile_templates([[["p", s]] for s in srcs])
     reqs, meta = [], []
     for i, (t, g) in enumerate(zip(ts, groups)):
@@ -97,6 +96,12 @@ def run(chk):
         if "snapshots" not in o or not o["snapshots"]:
             continue
         B = o["snapshots"][0].get("B") or []
+        # the advertised set of the model of the traversal + collector (advertised_tag_iff is about this set) is the runtime's
+        if srcs[i] in model_adv and core.MODEL_OK:
+            chk.bump("corr:advertised-sets")
+            if sorted(B) != model_adv[srcs[i]]:
+                chk.violation("correspondence", f"advertised fields: the model of the traversal gives {model_adv[srcs[i]]}, the generated binding map has {sorted(B)}",
+                              stream="advertised", template=srcs[i][:1500], model=model_adv[srcs[i]], real=sorted(B))
         reach, unreach, has_inc = tg.field_uses(ts[i])
         chk.case(("B", srcs[i]), nontrivial=len(B) > 0, sample=dict(template=srcs[i][:200], advertised=B) if B and len(chk.samples) < 3 and len(srcs[i]) < 200 else None)
         for f in B:
